@@ -219,8 +219,10 @@ def parse_report(text, keys):
                         hv = dec(c_hits)
                         if hv.denominator != 1:
                             raise ValueError('hits not integral')
+                        c_per, c_pct = r[e3:e4].strip(), r[e4:e5].strip()
                         rows.append(dict(line=int(c_line), hits=int(hv), hits_exact=hits_exact, time=dec(c_time),
-                                         time_f1='e' not in c_time.lower(), cells=[c_hits, c_time, r[e3:e4].strip(), r[e4:e5].strip()]))
+                                         time_f1='e' not in c_time.lower(), perhit=dec(c_per), perhit_f1='e' not in c_per.lower(),
+                                         percent=(dec(c_pct) if c_pct != '' else None), cells=[c_hits, c_time, c_per, c_pct]))
                     except Exception as ex:  # noqa
                         errors.append('bad row %r: %s' % (r[:e5], ex))
                 j += 1
@@ -276,6 +278,18 @@ def obs_sound_py(sj, ob):
             okt = close(p['time'], x, Fraction(1, 20), SLACK) if p['time_f1'] else close(p['time'], x, 0, Fraction(1, 200) + SLACK)
             if not okt:
                 why.append('%r line %d time cell %s vs %s' % (f['key'], p['line'], p['time'], float(x)))
+            # Per Hit = time * (unit / output_unit) / hits, % Time = 100 * time / total: every column tells the snapshot's story
+            if r[1] > 0 and 'perhit' in p:
+                y = x / r[1]
+                okp = close(p['perhit'], y, Fraction(1, 20), 2 * SLACK) if p['perhit_f1'] else close(p['perhit'], y, 0, Fraction(1, 200) + 2 * SLACK)
+                if not okp:
+                    why.append('%r line %d Per Hit cell %s vs time*unit/output_unit/hits = %s' % (f['key'], p['line'], float(p['perhit']), float(y)))
+            if 'percent' in p:
+                if T == 0:
+                    if p['percent'] is not None:
+                        why.append('%r line %d %% Time cell present although the total is 0' % (f['key'], p['line']))
+                elif p['percent'] is None or not close(p['percent'], Fraction(100 * r[2], T), Fraction(1, 20), 2 * SLACK):
+                    why.append('%r line %d %% Time cell %s vs %s' % (f['key'], p['line'], p['percent'], float(Fraction(100 * r[2], T))))
     for s in ob['sums']:
         rows = tim.get(tuple(s['key']))
         if rows is None:
@@ -499,6 +513,24 @@ def gen_cases(tier, rnd):
         e = mk_explicit(loc_bits[i % len(loc_bits)], sc, prefix='loc%d' % i)
         cases.append(dict(kind='explicit', ascii_locale=True, files=files, calls=calls, explicit=[e],
                           viewer=[mk_viewer(rnd, sub=True, fixed=dict(u=None, z=True, r=False, t=True, m=True))]))
+    # the empty session: profiling requested, nothing registered - every channel still has to work
+    allwc = [mk_explicit(b, rand_sc(rnd, default=(b % 2 == 0)), prefix='e%d' % b) for b in (15, 8, 6, 1, 0)]
+    cases.append(dict(kind='live', files=[dict(fname='idle.py', funcs=[dict(name='f', k=1, profiled=False)])], calls=[(0, 'f', 2)],
+                      live=[mk_live(mk_opts()), mk_live(mk_opts(summarize=True, sort=True, strip=True)), mk_live(mk_opts(details=False, summarize=True))],
+                      viewer=[mk_viewer(rnd, fixed=dict(u=None, z=False, r=False, t=False, m=False)),
+                              mk_viewer(rnd, sub=True, fixed=dict(u='1e-3', z=True, r=False, t=True, m=True))],
+                      explicit=allwc, lprof_name='empty.lprof'))
+    cases.append(dict(kind='synthetic', files=[], timings=[], unit='1e-09', live=[mk_live(mk_opts(summarize=True))],
+                      viewer=[mk_viewer(rnd, fixed=dict(u=None, z=True, r=False, t=True, m=True))],
+                      explicit=[mk_explicit(15, rand_sc(rnd, default=True), prefix='se')], lprof_name='empty.lprof'))
+    kch = dict(t='kview', u=None, z=False, r=False)
+    cases.append(dict(kind='kernprof', decorate=False, files=[dict(fname='idle_script.py', funcs=[dict(name='f', k=1)])], calls=[(0, 'f', 3)],
+                      kernprof=dict(view=True, u=None, z=False, r=False, chan=kch, ref_opts=py_opts_of(kch)),
+                      viewer=[mk_viewer(rnd, sub=True, fixed=dict(u=None, z=False, r=False, t=True, m=True))],
+                      live=[mk_live(mk_opts(summarize=True))], lprof_name='res.lprof'))
+    cases.append(dict(kind='explicit', decorate=False, files=[dict(fname='idle_explicit.py', funcs=[dict(name='f', k=1)])], calls=[(0, 'f', 3)],
+                      explicit=[mk_explicit(15, rand_sc(rnd, default=True), prefix='xe')],
+                      viewer=[mk_viewer(rnd, sub=True, fixed=dict(u=None, z=True, r=False, t=True, m=True))]))
     # histories of dumps: two profiler objects, two paths, foreign writers, deletions
     n_hist = 10 if not thorough else 300
     for i in range(n_hist):
@@ -786,6 +818,7 @@ def run(tier, seed):
         case_kinds=kinds, channel_kinds=hist, write_config_subsets_seen=len(wc_seen),
         exhaustive='all 16 write_config subsets in at least two sessions per run',
         max_hits=maxhits, max_time=maxtime, cases_with_non_ascii_names=nonascii,
+        empty_statistics_sessions=sum(1 for o in outs if 'snapshot' in o and not o['snapshot']['timings']),
         explicit_sessions_under_ascii_locale=sum(1 for c in cases if c.get('ascii_locale')),
         roundtrips_checked=sum(len(o.get('loaded', [])) for o in outs) + sum(1 for o in outs for st in o.get('history', []) if st['op'] == 'dump'),
         history_steps={k: sum(1 for o in outs for st in o.get('history', []) if st['op'] == k) for k in ('run', 'dump', 'foreign', 'delete', 'load')},
